@@ -152,7 +152,13 @@ func (f *decompressor) step() (err error) {
 	f.state.rOffset(startInputSize, startBitsLen)
 
 	if isError(err) || (err == errEndInput && f.eof) {
-		discardSize := f.peekSize - len(f.state.input) - int(state.bitsLen/8)
+		// after an invalid block the bit count can be negative (bits requested
+		// past the end of the input): no buffered byte is held back then
+		held := 0
+		if state.bitsLen > 0 {
+			held = int(state.bitsLen / 8)
+		}
+		discardSize := f.peekSize - len(f.state.input) - held
 		if discardSize > 0 {
 			_, err := f.rBuf.Discard(discardSize)
 			if err != nil {
